@@ -66,6 +66,13 @@ def parseCmd : P (Cmd sig) := do
   match t with
   | "GET" => k1 .get
   | "SET" => kv .set
+  -- the same commands issued as Lua scripts (EVAL / SCRIPT LOAD + EVALSHA): routed by KEYS[1]
+  | "EGET" => k1 .get
+  | "ESGET" => k1 .get
+  | "ESET" => kv .set
+  | "ESSET" => kv .set
+  | "EINCR" => k1 .incr
+  | "ESINCR" => k1 .incr
   | "SETNX" => kv .setnx
   | "APPEND" => kv .append
   | "STRLEN" => k1 .strlen
@@ -87,6 +94,7 @@ def parseCmd : P (Cmd sig) := do
     pure (.two a b (.lmove (f == "L") (t == "L")))
   | "SORTSTORE" => k2 .sortStore
   | "EVALSIE" => do let a ← strKey; let b ← strKey; let v ← bytesTok; pure (.two a b (.evalSetIfExists v))
+  | "EVALSHASIE" => do let a ← strKey; let b ← strKey; let v ← bytesTok; pure (.two a b (.evalSetIfExists v))
   | "MGET" => do let n ← nat; let ks ← repeatP n strKey; pure (.mget ks)
   | "MSET" => do let n ← nat; let l ← kvs n; pure (.mset l)
   | "MSETNX" => do let n ← nat; let l ← kvs n; pure (.msetnx l)
